@@ -49,9 +49,15 @@ def run(ctx):
         seen.setdefault(key, (what, rp))
 
     cases = [(1, 1, 1, 90, 90, 90), (2, 3, 4, 90, 90, 90), (3, 3, 5, 90, 90, 120), (3, 3, 5, 90, 90, 60), (4, 4, 4, 109.4712206, 109.4712206, 109.4712206),
-             (4, 4, 4, 60, 60, 90), (2, 5, 3, 70, 80, 85), (1.5, 9, 2.2, 100, 95, 130)]
+             (4, 4, 4, 60, 60, 90), (2, 5, 3, 70, 80, 85), (1.5, 9, 2.2, 100, 95, 130),
+             (4, 4, 4, 5, 5, 5), (2, 3, 4, 3, 4, 5), (6, 2, 3, 2.5, 6, 4), (3, 3, 3, 20, 25, 15), (3, 4, 5, 6.2, 6.25, 6.0)]
     while len(cases) < ctx.n(120, 1500):
-        al, be, ga = [rng.choice([60, 90, 90, 120, rng.uniform(45, 135)]) for _ in range(3)]
+        # needle-shaped cells too (every angle below 2 pi *degrees*, where the converter suspects radians, and below 30)
+        hi_ = rng.choice([None, None, None, None, 6.28, 30.0])
+        if hi_ is not None:
+            al, be, ga = [rng.uniform(0.2 * hi_, hi_) for _ in range(3)]
+        else:
+            al, be, ga = [rng.choice([60, 90, 90, 120, rng.uniform(45, 135)]) for _ in range(3)]
         if valid(al, be, ga):
             cases.append((rng.uniform(0.5, 9), rng.uniform(0.5, 9), rng.uniform(0.5, 9), al, be, ga))
     reqs = []
@@ -61,9 +67,16 @@ def run(ctx):
         A, B, C = [np.asarray(x, dtype=np.float64) for x in v]
         outs.append((A, B, C))
         ra, rb, rg = np.radians([al, be, ga])
+        if not all(np.isfinite(x).all() for x in (A, B, C)):
+            viol("vectors|not-finite", "lengths_and_angles_to_box_vectors(%s) of a valid cell gives %s" % ((a, b, c, al, be, ga), [x.tolist() for x in (A, B, C)]),
+                 dict(lengths=[a, b, c], angles=[al, be, ga]))
+            reqs.append("cell 1 1 1 0 0 0 1 1")
+            continue
         reqs.append("cell %s" % " ".join(rat(x) for x in (a, b, c, np.cos(ra), np.cos(rb), np.cos(rg), np.sin(rg), C[2])))
     model = ctx.driver.query(reqs) if ctx.driver_ok else [None] * len(reqs)
     for (a, b, c, al, be, ga), (A, B, C), m in zip(cases, outs, model):
+        if not all(np.isfinite(x).all() for x in (A, B, C)):
+            continue
         rp = dict(lengths=[a, b, c], angles=[al, be, ga], vectors=[A.tolist(), B.tolist(), C.tolist()])
         nontriv = (round(a, 4), round(b, 4), round(c, 4), round(al, 3), round(be, 3), round(ga, 3)) if (al, be, ga) != (90, 90, 90) else None
         ctx.case(rp if len(ctx.samples) < 3 else None, nontriv)
